@@ -948,6 +948,15 @@ pub fn run_one(scn: &Value) -> Vec<Value> {
     if auto_run {
         w.settle();
     }
+    if cfg["setup_log"].as_bool() != Some(true) {
+        // connection setup (control/QPACK streams, SETTINGS) is the same in every scenario: keep only the verdict
+        let evs = log.take();
+        for e in evs {
+            if e["ev"] == "reset" || (e["ev"] == "ret" && e["api"] == "build") || e["ev"] == "panic" || e["ev"] == "h3_close" {
+                log.push(e);
+            }
+        }
+    }
     let steps = scn["steps"].as_array().cloned().unwrap_or_default();
     for (i, st) in steps.iter().enumerate() {
         let op = st["op"].as_str().unwrap_or("");
@@ -982,7 +991,17 @@ pub fn run_one(scn: &Value) -> Vec<Value> {
                 }
                 n.peer_fin(sid)
             }
-            "reset" => w.net(st).peer_reset(sid, code),
+            "reset" => {
+                let n = w.net(st);
+                if !n.knows(sid) {
+                    if sid & 2 == 0 {
+                        n.peer_open_bidi(sid)
+                    } else {
+                        n.peer_open_uni(sid)
+                    }
+                }
+                n.peer_reset(sid, code)
+            }
             "stop" => w.net(st).peer_stop(sid, code),
             "close" => w.net(st).peer_close(if st["kind"] == "timeout" { PeerClose::Timeout } else { PeerClose::App(code) }),
             "grant" => w.net(st).grant(st["uni"].as_u64().unwrap_or(0), st["bidi"].as_u64().unwrap_or(0)),
